@@ -177,8 +177,8 @@ def run(ctx):
                 P.check_monotone(qt, u, v, xs, ys)
                 # the (unit, exponent) overload with exponent 1 is the same conversion (negative amounts and offset
                 # units included): compared with the string form on a few values
-                if (aff[u].off != 0 or aff[v].off != 0) or idx % 7 == 0:
-                    for x in (xs[0], xs[1], xs[len(xs) // 2], xs[-1], -47.0, -1e-3):
+                if (aff[u].off != 0 or aff[v].off != 0) or idx % 5 == 0:
+                    for x in (xs[0], xs[1], xs[len(xs) // 2], xs[-1], -47.0, -1e-3, -3.0, -1000.0, 7.0, 36000.0):
                         ctx.ev()
                         try:
                             a1 = db.Convert(qt, u, v, x)
@@ -188,6 +188,12 @@ def run(ctx):
                             ctx.violation("%s:%s:%s->%s:exponent-1-form-raised" % (kind, qt, u, v), {"error": repr(e)[:200], "x": x, "db": kind}, replay={"kind": kind, "qt": qt, "u": u, "v": v, "x": x})
                             break
                         tol = conv.tol_in(aff[v], conv.base_err(aff[u], x, aff[v]), a1, 16.0)
+                        if float(x).is_integer() and abs(x) < 1e9:
+                            # the same amount given as a Python int (negative and positive) is the same amount
+                            ai = db.Convert(qt, u, v, int(x))
+                            if abs(ai - a1) > tol:
+                                ctx.violation("%s:%s:%s->%s:int-amount-differs-from-float" % (kind, qt, u, v), {"float": repr(a1), "int": repr(ai), "x": int(x), "db": kind}, replay={"kind": kind, "qt": qt, "u": u, "v": v, "x": x})
+                                break
                         if abs(a2 - a1) > tol or abs(a3 - a1) > tol:
                             ctx.violation("%s:%s:%s->%s:exponent-1-form-differs" % (kind, qt, u, v), {"string_form": repr(a1), "list_form": repr(a2), "tuple_form": repr(a3), "x": x, "db": kind}, replay={"kind": kind, "qt": qt, "u": u, "v": v, "x": x})
                             break
